@@ -157,9 +157,13 @@ pub fn gen_case(seed: u64, idx: u64, uni: &UniCfg, fresh: bool) -> Case {
             }
         }
     }
-    // a consume of an id that never existed
-    if rng.chance(1, 3) {
-        jobs[0].push(OpSpec::new(Op::ErrorInfo { idslot: 0 }).c());
+    // consumes of values that never were ids (errno-like, fd-like, boundary),
+    // at random positions: they return NULL and must not disturb later calls
+    for _ in 0..rng.below(3) {
+        let raw = *rng.pick(&[0i32, -1, -2, -22, -18, 3, 7, -4095, -4096, i32::MIN, 1 << 20]);
+        let t = rng.below(nthreads as u64) as usize;
+        let pos = rng.below(jobs[t].len() as u64 + 1) as usize;
+        jobs[t].insert(pos, OpSpec::new(Op::ErrorInfoRaw { id: raw }).c());
     }
     c.world = Some(world());
     c.jobs = jobs;
@@ -262,8 +266,7 @@ pub fn eval(case: &Case, out: &RunOut, st: &mut Stats) {
     let mut problems: Vec<(String, String)> = Vec::new();
     for r in &out.records {
         match (&r.spec.op, &r.outcome) {
-            (Op::ErrorInfo { idslot }, Outcome::Info(id, res)) => {
-                let _ = idslot;
+            (Op::ErrorInfo { .. } | Op::ErrorInfoRaw { .. }, Outcome::Info(id, res)) => {
                 let got: Option<Payload> = res.as_ref().map(|(errno, desc)| {
                     let marker = expect.iter().map(|(_, _, m)| m).find(|m| !m.is_empty() && desc.contains(m.as_str())).cloned().unwrap_or_default();
                     (*errno as i32, marker)
